@@ -730,7 +730,7 @@ func (e *Engine) recordViolation(label, msg, kind, known string) {
 	v.Inputs = e.modelInputs()
 	v.Trail = e.trailVector()
 	v.Observes = append([]string(nil), e.observes...)
-	v.Sched = append([]schedEv(nil), e.schedLog...)
+	v.Sched = e.replaySchedule(e.schedLog)
 	v.Multi = e.multi
 	v.Points = append([]string(nil), e.pointLog...)
 	if kind == "known" {
@@ -1295,7 +1295,7 @@ func (e *Engine) RunConformance(k int, seed int64) []ConfRun {
 		if res.kind == "infeasible" {
 			continue
 		}
-		r := ConfRun{Trace: append([]string(nil), e.ctrace...), Sched: append([]schedEv(nil), e.schedLog...), Multi: e.multi, Result: res.kind}
+		r := ConfRun{Trace: append([]string(nil), e.ctrace...), Sched: e.replaySchedule(e.schedLog), Multi: e.multi, Result: res.kind}
 		if res.kind != "ok" {
 			r.Result = res.kind + ": " + res.msg + res.label
 		}
